@@ -26,9 +26,12 @@ impl WindowExecutor {
             if chunk.cardinality() == 0 {
                 continue;
             }
+            // each window function is fed ITS argument evaluated on the row (like the aggregation
+            // executors do), not the column of the child that happens to have the same position
+            let args_chunk = Evaluator::new(&self.exprs).eval_list(&chunk)?;
             let mut builder = DataChunkBuilder::new(&self.types, chunk.cardinality() + 1);
             for i in 0..chunk.cardinality() {
-                Evaluator::new(&self.exprs).agg_list_append(&mut states, chunk.row(i).values());
+                Evaluator::new(&self.exprs).agg_list_append(&mut states, args_chunk.row(i).values());
                 let results = Evaluator::new(&self.exprs).agg_list_get_result(&states);
                 _ = builder.push_row(results);
             }
